@@ -154,8 +154,10 @@ def norm_value(v):
     if isinstance(v, (list, tuple)):
         return [type(v).__name__] + [norm_value(x) for x in v]
     if isinstance(v, dict):
-        return {str(k): norm_value(x) for k, x in v.items()}
-    if isinstance(v, (str, int, float, bool)) or v is None:
+        return {ADDR.sub('0x', str(k)): norm_value(x) for k, x in v.items()}
+    if isinstance(v, str):
+        return 'str:%r' % ADDR.sub('0x', v)          # (the text of a callable that was concatenated into a string carries an address)
+    if isinstance(v, (int, float, bool)) or v is None:
         return '%s:%r' % (type(v).__name__, v)
     return 'obj:' + type(v).__name__
 
@@ -283,7 +285,9 @@ def run_text(case, ctx):
     fp0 = None
     for step, entry in enumerate(('parse', 'eval', 'eval', 'eval')):
         na, nb = base_names(0), base_names(0)
+        random.seed(step)           # a generated text may call rand / shuffle: both sides draw the same numbers
         oa, va = call(A, entry, text, na if entry == 'eval' else None, 200 if entry == 'eval' else None)
+        random.seed(step)
         ob, vb = call(B, entry, text, nb if entry == 'eval' else None, 200 if entry == 'eval' else None)
         ctx.count('calls_compared')
         ctx.count('given_texts_calls_compared')
@@ -317,7 +321,7 @@ def run_cgf(case, ctx):
     there are judged again here"""
     from lib import cgdriver
     _, seed, seconds = case
-    seeds = list(CORPUS[:30]) + ['f = v => [v, []]\nf(1)', 'get(d, "zz", [])', '[[], {}] if c else {"a": []}', 'x = [1]\nx', 'map([1, 2], v => {"k": [v]})', 'd["k"]', 'sorted([3, 1], v => [v])']
+    seeds = list(CORPUS[:30]) + ['f = v => [v, []]\nf(1)', 'get(d, "zz", [])', '[[], {}] if c else {"a": []}', 'x = [1]\nx', 'map([1, 2], v => {"k": [v]})', 'd["k"]', 'sorted([3, 1], v => [v])', '(1 + 2) * rand()', 'shuffle([1, 2, 3, 4])', 'rand([[], [1]])']
     out = cgdriver.run(ctx, 'check:C17:text', seed, seconds, seeds)
     if out is None:
         return
